@@ -134,4 +134,35 @@ ITEMS = [
         ],
         props=['C10'],
     ),
+    # `xs !% i` (cyclic) and `xs !? i` (null instead of an error): the interpreter-level wrappers of the two kernels above
+    Item(
+        id='obj_cyclic_index', source='src/lib.rs', locator='fn obj_cyclic_index',
+        requires=[('rust_allocation_limit', 'xr is Seq ==> seq_len_fits_isize(xr->Seq_0)')],
+        ensures=[
+            ('list_element_at_index_modulo_len', '(xr is Seq && xr->Seq_0 is List && obj_int(ir) is Some && isize::MIN <= obj_int(ir)->Some_0 <= isize::MAX && xr->Seq_0->List_0@.len() > 0) ==> '
+             'r == Ok::<Obj, NErr>(xr->Seq_0->List_0@[obj_int(ir)->Some_0 % (xr->Seq_0->List_0@.len() as int)])'),
+            ('bytes_element_at_index_modulo_len', '(xr is Seq && xr->Seq_0 is Bytes && obj_int(ir) is Some && isize::MIN <= obj_int(ir)->Some_0 <= isize::MAX && xr->Seq_0->Bytes_0@.len() > 0) ==> '
+             'r == Ok::<Obj, NErr>(Obj::Num(NNum::Int(NInt::Small(xr->Seq_0->Bytes_0@[obj_int(ir)->Some_0 % (xr->Seq_0->Bytes_0@.len() as int)] as i64))))'),
+            ('vector_element_at_index_modulo_len', '(xr is Seq && xr->Seq_0 is Vector && obj_int(ir) is Some && isize::MIN <= obj_int(ir)->Some_0 <= isize::MAX && xr->Seq_0->Vector_0@.len() > 0) ==> '
+             '(r is Ok && r->Ok_0 is Num && r->Ok_0->Num_0@ == xr->Seq_0->Vector_0@[obj_int(ir)->Some_0 % (xr->Seq_0->Vector_0@.len() as int)]@)'),
+            ('empty_sequences_and_bad_indices_raise', '(xr is Seq && (xr->Seq_0 is List || xr->Seq_0 is Bytes || xr->Seq_0 is Vector) && r is Err) ==> err_class(r->Err_0) == ErrClass::Index'),
+            ('dictionaries_streams_and_non_sequences_are_type_errors', '(!(xr is Seq) || xr->Seq_0 is Dict || xr->Seq_0 is Stream) ==> (r is Err && err_class(r->Err_0) == ErrClass::Type)'),
+        ],
+        props=['C10'],
+    ),
+    Item(
+        id='safe_index', source='src/lib.rs', locator='fn safe_index',
+        ensures=[
+            ('null_stays_null', 'xr is Null ==> r == Ok::<Obj, NErr>(Obj::Null)'),
+            ('list_element_or_null', '(xr is Seq && xr->Seq_0 is List) ==> r == Ok::<Obj, NErr>(if obj_int(ir) is Some && 0 <= obj_int(ir)->Some_0 < xr->Seq_0->List_0@.len() '
+             '{ xr->Seq_0->List_0@[obj_int(ir)->Some_0] } else { Obj::Null })'),
+            ('bytes_element_or_null', '(xr is Seq && xr->Seq_0 is Bytes) ==> r == Ok::<Obj, NErr>(if obj_int(ir) is Some && 0 <= obj_int(ir)->Some_0 < xr->Seq_0->Bytes_0@.len() '
+             '{ Obj::Num(NNum::Int(NInt::Small(xr->Seq_0->Bytes_0@[obj_int(ir)->Some_0] as i64))) } else { Obj::Null })'),
+            ('vector_element_or_null', '(xr is Seq && xr->Seq_0 is Vector) ==> (r is Ok && (if obj_int(ir) is Some && 0 <= obj_int(ir)->Some_0 < xr->Seq_0->Vector_0@.len() '
+             '{ r->Ok_0 is Num && r->Ok_0->Num_0@ == xr->Seq_0->Vector_0@[obj_int(ir)->Some_0]@ } else { r->Ok_0 is Null }))'),
+            ('string_never_fails', '(xr is Seq && xr->Seq_0 is String) ==> r is Ok'),
+            ('streams_and_non_sequences_are_type_errors', '((xr is Seq && xr->Seq_0 is Stream) || !(xr is Seq || xr is Null)) ==> (r is Err && err_class(r->Err_0) == ErrClass::Type)'),
+        ],
+        props=['C10'],
+    ),
 ]
